@@ -433,6 +433,34 @@ class DequeGen:
             ops.append(f"destroy_cb o={to}")
             sims[to] = None
 
+    # ------------------------------------------------------------------ re-creation at a reused address
+    @staticmethod
+    def recreate_program(k, cc, conf_first, n1=3, n2=3, keep=False):
+        """a container at slot k is destroyed and IMMEDIATELY re-created through the other constructor (other
+        allocator triple) — no allocation in between, so the new header can land on the freed address —, then
+        every builder derives from it and each derived deque is appended to until it grows.  Catches state
+        cached by parent address (seeded change in cc_list.c).  Returns (ops, content of slot k, its capacity,
+        whether slot k is now on the C library triple)."""
+        sk = f" o={k}" if k else ""
+        mk_conf, mk_def = f"new cap={cc}{sk}", f"new_default{sk}"
+        first, second = (mk_conf, mk_def) if conf_first else (mk_def, mk_conf)
+        ops = [first] + [f"add_last {10 + i}{sk}" for i in range(n1)] + [f"drop o={k}", second]
+        items = [20 + i for i in range(n2)]
+        ops += [f"add_last {v}{sk}" for v in items]
+        cap = 8 if conf_first else upper_pow_two(cc)
+        while cap < len(items):
+            cap *= 2
+        others = [j for j in range(4) if j != k][:3]
+        for j, mk in zip(others, ("mk_copy_shallow", "mk_copy_deep", "mk_filter")):
+            ops.append(f"{mk} to={j}{sk}")
+            size = len([x for x in items if x % 2 == 0]) if mk == "mk_filter" else len(items)
+            ops += [f"add_last {40 + i} o={j}" for i in range(cap - size + 1)]      # … until it grows
+            ops += [f"remove_first o={j}", "observe"]
+        ops += [f"drop o={j}" for j in others]
+        if not keep:
+            ops.append(f"drop o={k}")
+        return ops, items, cap, conf_first
+
     # ------------------------------------------------------------------ layouts (small scope)
     @staticmethod
     def layout(cap, f, s, slot=0, base=10):
@@ -549,6 +577,12 @@ class DequeGen:
                                       "remove_last o=1", "drop o=0", "add_last 8 o=1", "foreach o=1", "destroy"])
                     out.append(pre + [f"{mk} to=2", "drop o=2", "add_last 7", "destroy"])
                 out.append(pre + ["destroy_cb"])
+            # destroy + immediate re-creation on the other triple at the same slot, then every builder
+            for k in (0, 1):
+                for cc in (1, 2, 4, 5):
+                    for conf_first in (True, False):
+                        for n1, n2 in ((1, 1), (3, 3), (2, 5)):
+                            out.append(self.recreate_program(k, cc, conf_first, n1, n2)[0] + ["destroy"])
             # derived containers of a default-constructed deque inherit the C library triple
             for mk in ("mk_copy_shallow", "mk_copy_deep", "mk_filter"):
                 out.append(["new_default"] + [f"add_last {i}" for i in range(1, 9)] +
@@ -598,6 +632,14 @@ class DequeGen:
                 sims[0] = Sim(8)                 # cc_deque_new: default capacity, C library triple
                 ops = ["new_default"]
                 default_obj = True
+            if focus in ("derived", "all") and rng.random() < 0.2:
+                # early: drop + immediate re-creation through the other constructor, builders, growth
+                pre, items, cap, is_default = self.recreate_program(0, cc, rng.random() < 0.5,
+                                                                    rng.randint(1, 4), rng.randint(1, 6), keep=True)
+                ops = pre
+                sims = [Sim(1), None, None, None]
+                sims[0].items, sims[0].cap = list(items), cap
+                default_obj = is_default
             fault = focus == "fault"
             reject = focus in ("reject", "all")
             allow_fail = allf and not default_obj   # the C library triple is never refused: fail= would desynchronise the simulation
